@@ -144,3 +144,10 @@ pub(crate) fn add_dir_record(reloader: &HotReloader, id: &str) {
         }
     });
 }
+
+/// Verification hook: an opaque token identifying the dependency record that
+/// is currently installed on this thread (0 if none).
+#[cfg(assets_manager_verif)]
+pub(crate) fn recording_token() -> usize {
+    RECORDING.with(|rec| rec.get().map_or(0, |p| p.as_ptr() as usize))
+}
